@@ -81,7 +81,7 @@ def _eas_batch(eas, ev, beta, alt, E, lat, lon, A, QE, thr, Z, dask):
 
         def logged(b, a, e, la, lo, cloudf=None, _orig=orig):
             out = _orig(b, a, e, la, lo, cloudf)
-            log.append((float(a), float(out[0]), float(out[1])))
+            log.append(((float(b), float(a), float(e)), float(out[0]), float(out[1])))
             return out
         eas.CphotAng.run = logged
         try:
@@ -90,12 +90,14 @@ def _eas_batch(eas, ev, beta, alt, E, lat, lon, A, QE, thr, Z, dask):
         finally:
             eas.CphotAng.run = orig
         reached = {}
-        for a, d, th in log:
-            reached.setdefault(a, []).append((d, th))
+        # kernel calls are matched to events by their arguments, not by call order (the order in which a scheduler runs the partitions
+        # is not the event order)
+        for key, d, th in log:
+            reached.setdefault(key, []).append((d, th))
         for i in range(n):
-            r = reached.get(float(alt[i]), [])
+            r = reached.get((float(beta[i]), float(alt[i]), float(E[i])), [])
             d, th = r.pop(0) if r else (0.0, 1.5)
-            ev.append({"kind": "eas", "alt": bits(alt[i]), "reached": bool(_was(log, alt[i])),
+            ev.append({"kind": "eas", "alt": bits(alt[i]), "reached": bool(_was(log, (float(beta[i]), float(alt[i]), float(E[i])))),
                        "dphot": bits(d), "thdeg": bits(th), "A": bits(A), "QE": bits(QE), "thr": bits(thr), "numPEs": bits(pe[i]), "cosEff": bits(ce[i]),
                        "_m": {"alt": float(alt[i]), "A": A, "QE": QE, "thr": thr, "Z": Z, "dphot": d, "thdeg": th, "numPEs": float(pe[i]),
                               "cosEff": float(ce[i]), "batch_len": n}})
@@ -134,8 +136,8 @@ def geo_job(job):
     return ev
 
 
-def _was(log, a):
-    return any(x[0] == float(a) for x in log)
+def _was(log, key):
+    return any(x[0] == key for x in log)
 
 
 def _dispatch(job):
